@@ -572,6 +572,9 @@ func c11RunOne(t *testing.T, sc c11Scenario, prefix []int, expect []gate.PointRe
 			x.KeyFn = func() string {
 				var sb strings.Builder
 				sb.WriteString(srv.stateKey())
+				// every field of the result table, known to this harness or not (see gate.DeepKey)
+				sb.WriteString("|deep:")
+				sb.WriteString(gate.DeepKeyFields(results, "tracer"))
 				cl.mu.Lock()
 				fmt.Fprintf(&sb, "|cl: calls=%d sent=%d refused=%d ans=%d", cl.calls, len(cl.sent), len(cl.refused), len(cl.answers))
 				cl.mu.Unlock()
